@@ -192,7 +192,7 @@ static void mon_env_removes_victim(struct stop_state *s)
 #elif defined(U_BOUNDED)
 /* bounded stand-in: a concrete list of <= 3 nodes; the only environment step is the victim's deregistration */
 #define MON_AT_ACQUIRE(s) mon_env_removes_victim(s)
-#define MON_AT_RELEASE(s) VX_ASSERT(V_REACH(s) || 1, "")
+#define MON_AT_RELEASE(s) VX_ASSERT(V_REACH(s), "monitor invariant at release: a listed victim is reachable from the head")
 #else
 #define MON_AT_ACQUIRE(s) mon_havoc_list(s)
 #define MON_AT_RELEASE(s) VX_ASSERT(V_REACH(s), "monitor invariant at release: a listed victim is reachable from the head")
